@@ -1,6 +1,7 @@
 import WireV.Emit
 import WireP.Lemmas.EmitProofs
 import WireP.Props.C03
+import WireP.Props.C02
 /-! # C04 — the aggregated cleanup releases everything once, in reverse acquisition order
 
 Same model as C03 (`WireV.emitInj`, `WireV.exec`, `WireV.runClosure`).  Tie: the closure body parsed
@@ -52,5 +53,82 @@ example : runInj (fun _ => false) true false
     = ([Ev.call 0, Ev.call 2], Outcome.ok (some [2, 0])) := by decide
 example : runInj (fun _ => false) true false [{ kind := .value, out := 10, srcId := 1 }]
     = ([], Outcome.ok (some [])) := by decide
+
+/-! ## End to end: planner + emission
+
+The statement of the property speaks of "anything it was built from".  `BuiltFrom` is that relation
+on the planner's call list: step `q` takes the local defined by step `p` as an argument
+(variable number `given.length + p`), directly or through further steps — struct literals, field
+selections and value references included, which have no cleanup of their own but pass the
+dependency on. -/
+
+/-- `BuiltFrom ng cs q p`: the value of step `q` was built, directly or transitively, from the value of step `p` -/
+inductive BuiltFrom (ng : Nat) (cs : List Call) : Nat → Nat → Prop
+  | direct {q p : Nat} {c : Call} : cs[q]? = some c → ng + p ∈ c.args → BuiltFrom ng cs q p
+  | trans {q m p : Nat} : BuiltFrom ng cs q m → BuiltFrom ng cs m p → BuiltFrom ng cs q p
+
+/-- in the planner's output every step is built from strictly earlier steps (all graphs, all root orders) -/
+theorem builtFrom_earlier {pm : PMap} {sm : SMap} {given : List Ty} {out : Ty}
+    (hH : WireP.Solve.H pm given) (hg : WireP.Solve.GivenSelf pm given) {q p : Nat}
+    (h : BuiltFrom given.length (WireP.Solve.final pm sm given out).calls q p) : p < q := by
+  induction h with
+  | @direct q p c hq ha =>
+    obtain ⟨pt, _, _, _, hlen, hargs⟩ := WireP.C02.solve_args_sound_partial (sm := sm) (out := out) hH hg q c hq
+    obtain ⟨j, hj, hje⟩ := List.getElem_of_mem ha
+    have hj' : j < (depsOf pt.src).length := hlen ▸ hj
+    have h1 := hargs j (given.length + p) ((depsOf pt.src)[j]) (by rw [List.getElem?_eq_getElem hj, hje])
+      (List.getElem?_eq_getElem hj')
+    omega
+  | trans _ _ ih1 ih2 => omega
+
+/-- in a strictly decreasing list the larger of two members comes first -/
+theorem sublist_pair_of_pairwise_gt {l : List Nat} (hl : l.Pairwise (· > ·)) {q p : Nat}
+    (hq : q ∈ l) (hp : p ∈ l) (hpq : p < q) : List.Sublist [q, p] l := by
+  induction l with
+  | nil => simp at hq
+  | cons x xs ih =>
+    rw [List.pairwise_cons] at hl
+    rcases List.mem_cons.mp hq with rfl | hq'
+    · rcases List.mem_cons.mp hp with rfl | hp'
+      · omega
+      · exact List.Sublist.cons_cons _ (List.singleton_sublist.mpr hp')
+    · rcases List.mem_cons.mp hp with rfl | hp'
+      · have := hl.1 q hq'; omega
+      · exact List.Sublist.cons _ (ih hl.2 hq' hp')
+
+/-- **C04 end to end.**  For every acyclic provider map, every injector-argument list and every
+    requested type: if the planned injector runs to success and the caller invokes the returned
+    function, then for any two cleanup-returning providers `q`, `p` where `q` was built (directly or
+    transitively, through any mixture of provider, struct, field and value steps) from `p`, the
+    cleanup of `q` runs strictly before the cleanup of `p`. -/
+theorem cleanup_before_what_it_was_built_from {pm : PMap} {sm : SMap} {given : List Ty} {out : Ty}
+    (hH : WireP.Solve.H pm given) (hg : WireP.Solve.GivenSelf pm given)
+    (fails : Nat → Bool) (se : Bool)
+    (hok : NoFail fails 0 (WireP.Solve.final pm sm given out).calls) {q p : Nat}
+    (hb : BuiltFrom given.length (WireP.Solve.final pm sm given out).calls q p)
+    (hq : q ∈ clPos 0 (WireP.Solve.final pm sm given out).calls)
+    (hp : p ∈ clPos 0 (WireP.Solve.final pm sm given out).calls) :
+    List.Sublist [Ev.cleanup q, Ev.cleanup p]
+      (runClosure (runInj fails true se (WireP.Solve.final pm sm given out).calls).2) := by
+  rw [ok_cleanup_trace fails se _ hok]
+  have h := sublist_pair_of_pairwise_gt (cleanup_respects_deps _)
+    (List.mem_reverse.mpr hq) (List.mem_reverse.mpr hp) (builtFrom_earlier hH hg hb)
+  simpa using h.map Ev.cleanup
+
+/-- each cleanup event occurs exactly once in the trace of the returned function -/
+theorem cleanup_trace_nodup (fails : Nat → Bool) (se : Bool) (cs : List Call) (hok : NoFail fails 0 cs) :
+    (runClosure (runInj fails true se cs).2).Nodup := by
+  rw [ok_cleanup_trace fails se cs hok]
+  rw [List.Nodup, List.pairwise_map]
+  exact (cleanup_respects_deps cs).imp (fun hab h => by injection h; omega)
+
+-- non-vacuity of `BuiltFrom`: step 2 is built from step 0 through the struct step 1
+example : BuiltFrom 0
+    [{ kind := .func, out := 10, srcId := 1, hasCleanup := true },
+     { kind := .struct, out := 11, srcId := 2, args := [0] },
+     { kind := .func, out := 12, srcId := 3, args := [1], hasCleanup := true }] 2 0 :=
+  .trans (m := 1)
+    (.direct (q := 2) (p := 1) (c := { kind := .func, out := 12, srcId := 3, args := [1], hasCleanup := true }) rfl (by simp))
+    (.direct (q := 1) (p := 0) (c := { kind := .struct, out := 11, srcId := 2, args := [0] }) rfl (by simp))
 
 end WireP.C04
